@@ -9,8 +9,8 @@ import UmProofs.BrokerDefs
 * `slotsNum_compact`: `compact` preserves the slot count of a `DisjList`;
 * `compact_of_normal`: `compact` is the identity on `NormalRanges` lists.
 -/
-namespace Um.Broker
-open Um Um.Slots
+namespace Um.Broker.Scale
+open Um Um.Slots Um.Broker
 
 /-! ## `slotsNum` -/
 
@@ -240,4 +240,4 @@ theorem normal_compact (l : RangeList) : NormalRanges (compact l) := by
   | cons r rs =>
     exact normal_mergeGo r rs (hw r (by simp)) (fun x hx => hw x (by simp [hx]))
 
-end Um.Broker
+end Um.Broker.Scale
